@@ -179,6 +179,7 @@ func NewRaftNodeWithLogger(opts *ClusteringOptions, store storage.ManagedStore, 
 
 	// Set hashing function
 	hasherF := hashing.NewSha256Hasher
+	hasherF = verifHasherF(hasherF)
 	node.hasherF = hasherF
 
 	// Instantiate balloon FSM
